@@ -884,6 +884,40 @@ class ExtLib:
             return Njit(a[0], {})
         return Opaque("njit-decorator", dict(k))
 
+    # ---- h5py
+    def c_h5py_File(self, a, k, n, ms):
+        from .h5model import open_file
+        return open_file(self.I, a, k, n, ms)
+
+    def c_numpy_moveaxis(self, a, k, n, ms):
+        v, src, dst = a[0], simplify_scalar(a[1]), simplify_scalar(a[2])
+        nd = v.ndim
+        src %= nd
+        dst %= nd
+        order = [i for i in range(nd) if i != src]
+        order.insert(dst, src)
+        return self.transpose(v, tuple(order), n, ms)
+
+    def c_numpy_allclose(self, a, k, n, ms):
+        x, y = a[0], a[1]
+        self.I.trace.append(Op("Compare", fn="allclose", args=[x, y], where=self.I.where(n, ms)))
+        if isinstance(x, Arr) and isinstance(y, Arr):
+            if x.same_cells(y):
+                return True
+            fx, fy = arr_valfn(x), arr_valfn(y)
+            if fx is not None and fy is not None:
+                if len(x.shape) != len(y.shape) or not all(_dim_eq(p, q) for p, q in zip(x.shape, y.shape)):
+                    return False
+                dims = [simplify_scalar(d) for d in x.shape]
+                if all(isinstance(d, int) and d <= 8 for d in dims):
+                    import itertools
+                    return all(fx(tuple(pconst(i) for i in ix)) == fy(tuple(pconst(i) for i in ix))
+                               for ix in itertools.product(*[range(d) for d in dims]))
+                idx = tuple(psym("@%d" % i) for i in range(x.ndim))
+                return fx(idx) == fy(idx)
+            return False
+        raise Unsupported("allclose of %r, %r" % (x, y))
+
     # ---- pyfftw
     def c_pyfftw_FFTW(self, a, k, n, ms):
         return FFTPlan(a[0], a[1], k.get("direction", "FFTW_FORWARD"), dict(k))
